@@ -69,6 +69,11 @@ func VerifC35Links() {
 		// recognised; what is stored then is outside this reference
 		return
 	}
+	if abs == self && len(scopes[site]) >= 4 && nd.Known("C35-nested-self-link") {
+		// recorded finding: Graph.IDA() is wrong for boards nested two levels deep, so a
+		// link from such a board to itself is not recognised as a self link
+		return
+	}
 	if boards[abs] && abs != self {
 		nd.Cover("kept")
 		want := "root"
